@@ -243,8 +243,9 @@ JudgeDecapQ(e, rx, q, crc) ==
         \cup V(isPend /\ rx.pend.kind = "end" /\ wf /\ kind = "end" /\ gAgree /\ fits /\ ~inj => (r.t = "completed" \/ ~np),
                IF Len(sess.exts) > 0 THEN Append(PP(<<"C02">>), "C13") ELSE PP(<<"C02">>), "Rx.LockStepEndDelivers")
         \* lock-step attribution and round trip
-        \cup V(isPend /\ hasMeta /\ rx.pend.kind \in {"complete", "first"} => r.meta.label = rx.pend.intended, <<"C04">>, "Rx.Attribution")
-        \cup V(isPend /\ hasMeta /\ rx.pend.kind \in {"inter", "end"} => r.meta.label = sess.intended, <<"C04">>, "Rx.Attribution.frag")
+        \cup V(isPend /\ hasMeta /\ rx.pend.kind \in {"complete", "first"} => r.meta.label = rx.pend.intended,
+               IF rx.pend.kind = "complete" THEN <<"C04", "C01">> ELSE <<"C04", "C02">>, "Rx.Attribution")
+        \cup V(isPend /\ hasMeta /\ rx.pend.kind \in {"inter", "end"} => r.meta.label = sess.intended, <<"C04", "C02">>, "Rx.Attribution.frag")
         \cup V(isPend /\ r.t = "completed" /\ rx.pend.kind = "complete" =>
                   /\ r.pdu = PduBytes(rx.pend.pdu) /\ r.meta.ptype = rx.pend.ptype /\ r.meta.exts = rx.pend.exts,
                <<"C01", "C13">>, "Rx.RoundTrip.complete")
